@@ -76,6 +76,9 @@ def apply_op(spec, pool, refs, op, menu):
     elif k == "pickle":
         pool.append(pickle.loads(pickle.dumps(pool[op[1]])))
         refs.append(Member(refs[op[1]].evs, refs[op[1]].fillable))
+    elif k == "new":
+        pool.append(S.build(spec))
+        refs.append(Member())
     else:
         raise ValueError(op)
 
@@ -110,8 +113,9 @@ def enabled(pool_refs, menu, P):
 
 
 def replay(spec, history, menu):
+    """Fresh pool, then the menu's 'init' prefix (a non-initial start state), then the history."""
     pool, refs = [S.build(spec)], [Member()]
-    for op in history:
+    for op in list(menu.get("init", [])) + list(history):
         apply_op(spec, pool, refs, op, menu)
     return pool, refs
 
